@@ -398,6 +398,10 @@ func ruleVersGroup(p *Prog, r *Report) {
 			_ = name
 		}
 	}
+	// the open lower bound is kept either as a pointer (nil = nothing open) or as a value together with a
+	// boolean "an interval is open"
+	var boolVars []string
+	openFlag := ""
 	for _, ins := range loops[0].header.Instrs {
 		ph, ok := ins.(*ssa.Phi)
 		if !ok {
@@ -406,13 +410,53 @@ func ruleVersGroup(p *Prog, r *Report) {
 		switch u := ph.Type().Underlying().(type) {
 		case *types.Pointer:
 			lowerVar = ph.Comment
+		case *types.Struct:
+			if lowerVar == "" && types.Identical(ph.Type(), grp.Signature.Params().At(0).Type().Underlying().(*types.Slice).Elem()) {
+				lowerVar = ph.Comment
+				openFlag = "?"
+			}
 		case *types.Basic:
 			if isBoolType(ph.Type()) {
-				flagVar = ph.Comment
+				boolVars = append(boolVars, ph.Comment)
 			}
 		case *types.Slice:
 			listVar = ph.Comment
 			ivT, _ = u.Elem().Underlying().(*types.Struct)
+		}
+	}
+	if openFlag == "?" {
+		// the flag that becomes true when a lower bound is read
+		openFlag = ""
+		for _, lf := range leaves {
+			if lf.o.kind != "continue" {
+				continue
+			}
+			next, _ := lf.o.val.(map[string]any)
+			for k, ti := range c.terms {
+				_ = ti
+				if !strings.HasSuffix(k, "[i].operator") {
+					continue
+				}
+				v, ok := lf.w.pos[posKey(k, 0)]
+				if !ok || v%2 == 0 || v/2 >= len(c.pools[k]) {
+					continue
+				}
+				if op := constant.StringVal(c.pools[k][v/2]); op == ">=" || op == ">" {
+					for _, bv := range boolVars {
+						if cv, ok := next[bv].(avConst); ok && cv.v.Kind() == constant.Bool && constant.BoolVal(cv.v) {
+							openFlag = bv
+						}
+					}
+				}
+			}
+		}
+		if openFlag == "" {
+			lowerVar = ""
+		}
+	}
+	for _, bv := range boolVars {
+		if bv != openFlag {
+			flagVar = bv
 		}
 	}
 	if lowerVar == "" || listVar == "" || ivT == nil {
@@ -482,6 +526,10 @@ func ruleVersGroup(p *Prog, r *Report) {
 		desc := w.describe(c.pools, c.terms)
 		lNonNil := w.pos[posKey(lowK+"?nil", 0)] == 1
 		_, lKnown := w.pos[posKey(lowK+"?nil", 0)]
+		if openFlag != "" {
+			v, ok := w.pos[posKey("state:"+openFlag, 0)]
+			lNonNil, lKnown = v == 1, ok
+		}
 		flag, fKnown := false, false
 		if flagVar != "" {
 			v, ok := w.pos[posKey("state:"+flagVar, 0)]
@@ -515,9 +563,31 @@ func ruleVersGroup(p *Prog, r *Report) {
 				if x.key == lowK {
 					nl = "same"
 				}
+				if x.key == seq+"[i]" {
+					nl = "current"
+				}
 			case avAddr:
 				if x.ref != nil && x.ref.key == seq+"[i]" {
 					nl = "current"
+				}
+			}
+			if openFlag != "" {
+				// value + flag: nothing is open when the flag is false, whatever the value holds
+				switch f := next[openFlag].(type) {
+				case avConst:
+					if f.v.Kind() == constant.Bool && !constant.BoolVal(f.v) {
+						nl = "nil"
+					} else if nl == "same" && !(lKnown && lNonNil) {
+						nl = "?"
+					}
+				case avTerm:
+					if f.key != "state:"+openFlag {
+						nl = "?"
+					} else if lKnown && !lNonNil {
+						nl = "nil"
+					}
+				default:
+					nl = "?"
 				}
 			}
 			cur := seq + "[i].version"
@@ -625,7 +695,11 @@ func ruleVersGroup(p *Prog, r *Report) {
 	// initial state
 	if len(leaves) > 0 {
 		in := leaves[0].init
-		if _, ok := in[lowerVar].(avNil); !ok {
+		if openFlag != "" {
+			if cv, ok := in[openFlag].(avConst); !ok || cv.v.Kind() != constant.Bool || constant.BoolVal(cv.v) {
+				bad = append(bad, "an interval counts as open before the first comparator")
+			}
+		} else if _, ok := in[lowerVar].(avNil); !ok {
 			bad = append(bad, "the open lower bound is not nil before the first comparator")
 		}
 		if flagVar != "" {
@@ -753,10 +827,12 @@ func ruleVersContainsShape(p *Prog, r *Report) {
 		hasNeq, rejects, accepts := false, false, false
 		for b := range l.body {
 			for _, ins := range b.Instrs {
-				if bo, ok := ins.(*ssa.BinOp); ok && bo.Op == token.EQL {
+				if bo, ok := ins.(*ssa.BinOp); ok && (bo.Op == token.EQL || bo.Op == token.NEQ) {
 					if s, ok := constString(bo.Y); ok && s == "!=" {
 						hasNeq = true
 					}
+				}
+				if bo, ok := ins.(*ssa.BinOp); ok && bo.Op == token.EQL {
 					if v, ok := callNamed(valueInstr(bo.X), "Compare"); ok && v != nil {
 						if z, ok := constInt(bo.Y); ok && z == 0 {
 							for _, ref := range *bo.Referrers() {
